@@ -722,3 +722,156 @@ func refMerkle(hs [][32]byte) [32]byte {
 	}
 	return level[0]
 }
+
+// ---- tx.enc: the ENCODER on values constructed by the harness (the dump is parsed back into a
+// library value); the model's proven encoder is the reference
+
+func parseTxDump(args []string) *tx.Tx {
+	if len(args) != 5 {
+		return nil
+	}
+	field := func(s, pre string) (string, bool) {
+		if !strings.HasPrefix(s, pre) {
+			return "", false
+		}
+		return s[len(pre):], true
+	}
+	unbr := func(s string) (string, bool) {
+		if len(s) < 2 || s[0] != '[' || s[len(s)-1] != ']' {
+			return "", false
+		}
+		return s[1 : len(s)-1], true
+	}
+	split := func(s, sep string) []string {
+		if s == "" {
+			return nil
+		}
+		return strings.Split(s, sep)
+	}
+	t := &tx.Tx{}
+	v, ok := field(args[0], "ver=")
+	if !ok {
+		return nil
+	}
+	ver, err := strconv.ParseUint(v, 10, 32)
+	if err != nil {
+		return nil
+	}
+	t.Version = int32(uint32(ver))
+	is, ok1 := field(args[1], "in=")
+	is, ok2 := unbr(is)
+	if !ok1 || !ok2 {
+		return nil
+	}
+	t.Inputs = []*tx.Input{}
+	for _, s := range split(is, ";") {
+		f := strings.Split(s, ":")
+		if len(f) != 4 {
+			return nil
+		}
+		po := &tx.PrevOut{}
+		h := unhx(f[0])
+		if len(h) != 32 {
+			return nil
+		}
+		copy(po.Hash[:], h)
+		idx, e1 := strconv.ParseUint(f[1], 10, 32)
+		seq, e2 := strconv.ParseUint(f[3], 10, 32)
+		if e1 != nil || e2 != nil {
+			return nil
+		}
+		po.Index = uint32(idx)
+		t.Inputs = append(t.Inputs, &tx.Input{PrevOut: po, Script: unhx(f[2]), Sequence: uint32(seq)})
+	}
+	os_, ok1 := field(args[2], "out=")
+	os_, ok2 = unbr(os_)
+	if !ok1 || !ok2 {
+		return nil
+	}
+	t.Outputs = []*tx.Output{}
+	for _, s := range split(os_, ";") {
+		f := strings.Split(s, ":")
+		if len(f) != 2 {
+			return nil
+		}
+		val, e1 := strconv.ParseUint(f[0], 10, 64)
+		if e1 != nil {
+			return nil
+		}
+		t.Outputs = append(t.Outputs, &tx.Output{Value: val, Script: unhx(f[1])})
+	}
+	ws, ok := field(args[3], "wit=")
+	if !ok {
+		return nil
+	}
+	if ws != "none" {
+		body, ok := unbr(ws)
+		if !ok {
+			return nil
+		}
+		t.Witnesses = []tx.Witness{}
+		for _, st := range split(body, "|") {
+			w := tx.Witness{}
+			if st != "." {
+				for _, it := range strings.Split(st, ",") {
+					w = append(w, unhx(it))
+				}
+			}
+			t.Witnesses = append(t.Witnesses, w)
+		}
+	}
+	l, ok := field(args[4], "lock=")
+	if !ok {
+		return nil
+	}
+	lock, err := strconv.ParseUint(l, 10, 32)
+	if err != nil {
+		return nil
+	}
+	t.Locktime = uint32(lock)
+	return t
+}
+
+func init() {
+	reg("tx.enc", Full, func(a []string) (string, []string) {
+		t := parseTxDump(a)
+		if t == nil {
+			return "bad-op", nil
+		}
+		var direct []string
+		before := dumpTx(t)
+		enc, encnw := t.Bytes(), t.BytesNoWitness()
+		if dumpTx(t) != before {
+			direct = append(direct, "serialising changed the transaction")
+		}
+		if enc != nil && len(t.Inputs) > 0 {
+			back, err := tx.FromBytes(enc)
+			if err != nil {
+				direct = append(direct, "FromBytes(Bytes()) fails on a constructed transaction: "+err.Error())
+			} else if dumpTx(back) != before {
+				direct = append(direct, "FromBytes(Bytes()) differs from the constructed transaction")
+			} else if r := mkReader(append(append([]byte{}, enc...), 0xde, 0xad)); true {
+				if _, err := tx.FromReader(r); err == nil {
+					rest, _ := io.ReadAll(r)
+					if hx(rest) != "dead" {
+						direct = append(direct, "decoding the encoding of a constructed transaction did not stop at its end")
+					}
+				}
+			}
+		}
+		return fmt.Sprintf("ok enc=%s encnw=%s size=%d sizenw=%d weight=%d vsize=%d txid=%s wtxid=%s", encStr(enc), encStr(encnw), t.Size(), t.SizeNoWitness(), t.WeightUnits(), t.VSize(), idStr(t, false), idStr(t, true)), direct
+	})
+	gen := func(r *Runner) {
+		for i := 0; i < r.N(2500, 150000); i++ {
+			t, b := r.genTx(4, 4)
+			r.Do("tx.enc", strings.Fields(dumpTx(t)), "tx-encode-constructed", b, "")
+		}
+	}
+	regExtra("C01", gen)
+	regExtra("C02", func(r *Runner) {
+		for i := 0; i < r.N(800, 50000); i++ {
+			t, b := r.genTx(4, 4)
+			r.Do("tx.enc", strings.Fields(dumpTx(t)), "tx-encode-constructed", b, "")
+		}
+	})
+}
